@@ -175,8 +175,16 @@ Definition qout_print (o : qout) : bytes :=
 (* ---------------------------------------------------------------- redial *)
 (*  turbotunnel redial <ecap> <tokens>     (tokens: see harness/overlay/zz_verif/turbotunnel/redial.go)
     After every token all internal steps are run to quiescence under EVERY schedule; the
-    result is the set of possible observation lines, separated by '|'. *)
-Inductive rtok := KDial (ok : bool) | KRead (k : nat) (ok : bool) | KWrite (k : nat) (ok : bool) | KUW | KUR | KUC.
+    result is the set of possible observation lines, separated by '|'.
+    turbotunnel redials <ecap> <tokens>: the carriers' Close() takes time.  The model's step
+    LDCloseCarrier (the only step that changes c_nclose, taken by the dial loop between exchange and
+    the next dial) stands for the RETURN of conn.Close(): here it is not an internal step but
+    happens when the script says so (token K<k>), exactly like the scripted carrier of the driver,
+    whose Close() blocks until K<k> and which counts as closed only then.
+    oad = per successful dial, the number of carriers that are open in the state in which
+    dialContext returns (computed, not assumed; C17_no_open_carrier_at_dial proves it is 0). *)
+Inductive rtok := KDial (ok : bool) | KRead (k : nat) (ok : bool) | KWrite (k : nat) (ok : bool) | KUW | KUR | KUC
+                | KCloseRet (k : nat).
 
 Definition kb_parse (r : bytes) : option (nat * bool) :=
   match split_on COLON r with
@@ -196,6 +204,7 @@ Definition rtok_parse (t : bytes) : option rtok :=
   | [67] => Some KUC
   | 114 :: r => option_map (fun x => KRead (fst x) (snd x)) (kb_parse r)
   | 119 :: r => option_map (fun x => KWrite (fst x) (snd x)) (kb_parse r)
+  | 75 :: r => option_map KCloseRet (dec_parse_nat r)     (* K<k> *)
   | _ => None
   end.
 
@@ -220,8 +229,18 @@ Fixpoint lnat_eqb (a b : list nat) : bool :=
   | _, _ => false
   end.
 
-Definition config := (rstate * list nat)%type.      (* state, answer codes (reversed) *)
-Definition enc_config (c : config) : list nat := snd c ++ [99] ++ enc_state (fst c).
+(* state, (answer codes (reversed), open carriers at each successful dial (reversed)) *)
+Definition config := (rstate * (list nat * list nat))%type.
+Definition enc_config (c : config) : list nat :=
+  fst (snd c) ++ [99] ++ snd (snd c) ++ [98] ++ enc_state (fst c).
+
+Fixpoint open_idx (i : nat) (cs : list carrier) : list nat :=
+  match cs with
+  | [] => []
+  | c :: t => if c_closed c then open_idx (S i) t else i :: open_idx (S i) t
+  end.
+
+Definition is_close_label (l : label) : bool := match l with LDCloseCarrier => true | _ => false end.
 
 Fixpoint dedupe (seen : list (list nat)) (cs : list config) : list config :=
   match cs with
@@ -233,12 +252,13 @@ Fixpoint dedupe (seen : list (list nat)) (cs : list config) : list config :=
 
 Section RedialRun.
   Variable ecap : nat.
+  Variable slow : bool.     (* conn.Close() returns only when the script says so *)
 
   Fixpoint closure (fuel : nat) (s : rstate) : list rstate :=
     match fuel with
     | O => [s]
     | S f =>
-        match filter (enabled ecap QCAP s) (internal_labels s) with
+        match filter (fun l => enabled ecap QCAP s l && negb (slow && is_close_label l)) (internal_labels s) with
         | [] => [s]
         | en => flat_map (fun l => match step ecap QCAP s l with Some s' => closure f s' | None => [] end) en
         end
@@ -249,28 +269,35 @@ Section RedialRun.
 
   (* answer codes: 0 "-", 1 "n", 2 "ok", 3 "E", 4 "p", 5 "B" *)
   Definition apply_tok (t : rtok) (c : config) : config :=
-    let '(s, ans) := c in
+    let '(s, (ans, oad)) := c in
+    let mk (s' : rstate) (ans' : list nat) : config := (s', (ans', oad)) in
     let try (l : label) (pre : bool) :=
-      if pre then match step ecap QCAP s l with Some s' => (s', 0 :: ans) | None => (s, 1 :: ans) end
-      else (s, 1 :: ans) in
+      if pre then match step ecap QCAP s l with Some s' => mk s' (0 :: ans) | None => mk s (1 :: ans) end
+      else mk s (1 :: ans) in
     match t with
-    | KDial ok => try (if ok then LDialOk else LDialFail) true
+    | KDial true =>
+        match step ecap QCAP s LDialOk with
+        | Some s' => (s', (0 :: ans, List.length (open_idx 0 (r_cs s)) :: oad))
+        | None => mk s (1 :: ans)
+        end
+    | KDial false => try LDialFail true
+    | KCloseRet k => try LDCloseCarrier (match r_d s with DClose k' => Nat.eqb k' k | _ => false end)
     | KRead k ok =>
         match nth_error (r_cs s) k with
         | Some car => try (if ok then LReadOk k else LReadFail k) (negb (c_closed car))
-        | None => (s, 1 :: ans)
+        | None => mk s (1 :: ans)
         end
     | KWrite k ok =>
         match nth_error (r_cs s) k with
         | Some car => try (if ok then LWriteOk k else LWriteFail k) (negb (c_closed car))
-        | None => (s, 1 :: ans)
+        | None => mk s (1 :: ans)
         end
     | KUW => let a := match user_result s LUWrite with UErr _ => 3 | _ => 2 end in
-             match step ecap QCAP s LUWrite with Some s' => (s', a :: ans) | None => (s, a :: ans) end
+             match step ecap QCAP s LUWrite with Some s' => mk s' (a :: ans) | None => mk s (a :: ans) end
     | KUR => let a := match user_result s LURead with UErr _ => 3 | UPacket => 4 | _ => 5 end in
-             match step ecap QCAP s LURead with Some s' => (s', a :: ans) | None => (s, a :: ans) end
+             match step ecap QCAP s LURead with Some s' => mk s' (a :: ans) | None => mk s (a :: ans) end
     | KUC => let a := match user_result s LUClose with UErr _ => 3 | _ => 2 end in
-             match step ecap QCAP s LUClose with Some s' => (s', a :: ans) | None => (s, a :: ans) end
+             match step ecap QCAP s LUClose with Some s' => mk s' (a :: ans) | None => mk s (a :: ans) end
     end.
 
   Fixpoint rrun (toks : list rtok) (cs : list config) : list config :=
@@ -285,16 +312,11 @@ Definition ans_print (a : nat) : bytes :=
 
 Definition dotted (l : list bytes) : bytes := or_e (join [DOT] l).
 
-Fixpoint open_idx (i : nat) (cs : list carrier) : list nat :=
-  match cs with
-  | [] => []
-  | c :: t => if c_closed c then open_idx (S i) t else i :: open_idx (S i) t
-  end.
-
 Definition config_print (c : config) : bytes :=
   let s := fst c in
-  list_print (map ans_print (List.rev (snd c))) ++ [SEMI] ++
+  list_print (map ans_print (List.rev (fst (snd c)))) ++ [SEMI] ++
   bs "dials=" ++ nat_print (List.length (r_cs s) + (match r_d s with DDial => 1 | _ => 0 end) + (if g_dial_failed s then 1 else 0)) ++
+  bs " oad=" ++ dotted (map nat_print (List.rev (snd (snd c)))) ++
   bs " open=" ++ dotted (map nat_print (open_idx 0 (r_cs s))) ++
   bs " max=" ++ nat_print (Nat.min 1 (List.length (r_cs s))) ++
   bs " closes=" ++ dotted (map (fun c => nat_print (c_nclose c)) (r_cs s)) ++
@@ -304,8 +326,8 @@ Definition config_print (c : config) : bytes :=
 Open Scope N_scope.
 Definition BAR : N := 124.
 
-Definition redial_run (ecap : nat) (toks : list rtok) : bytes :=
-  join [BAR] (map config_print (rrun ecap toks (settle ecap [(rs_init, [])]))).
+Definition redial_run (ecap : nat) (slow : bool) (toks : list rtok) : bytes :=
+  join [BAR] (map config_print (rrun ecap slow toks (settle ecap slow [(rs_init, ([], []))]))).
 
 (* the op list of a qc case may be split over several space separated fields (Wire.split_on is
    quadratic in the length of one field) *)
@@ -337,7 +359,12 @@ Definition run (args : list bytes) : bytes :=
             end
           else if beq op (bs "redial") then
             match dec_parse_nat a, list_parse rtok_parse b with
-            | Some ecap, Some toks => redial_run ecap toks
+            | Some ecap, Some toks => redial_run ecap false toks
+            | _, _ => ERR_BADCASE
+            end
+          else if beq op (bs "redials") then
+            match dec_parse_nat a, list_parse rtok_parse b with
+            | Some ecap, Some toks => redial_run ecap true toks
             | _, _ => ERR_BADCASE
             end
           else ERR_BADCASE
